@@ -165,9 +165,17 @@ func (r *Run) DistinctH(set string, h uint64) bool {
 	if _, ok := m[h]; ok {
 		return false
 	}
+	if len(m) >= maxSetSize {
+		// the set is full: further members are not stored, the reported size is a lower bound
+		r.counters["set_overflow_"+set]++
+		return true
+	}
 	m[h] = struct{}{}
 	return true
 }
+
+// maxSetSize bounds every distinct-set (memory of the coordinating process).
+const maxSetSize = 30000000
 
 // AddDistinct adds n members to the named set that the caller has already deduplicated in a key space
 // disjoint from every other contribution (e.g. the states of one configuration), without storing them.
@@ -277,6 +285,12 @@ func (r *Run) mergeWire(w *wire) {
 			r.sets[k] = m
 		}
 		for _, h := range l {
+			if len(m) >= maxSetSize {
+				if _, ok := m[h]; !ok {
+					r.counters["set_overflow_"+k]++
+				}
+				continue
+			}
 			m[h] = struct{}{}
 		}
 	}
@@ -378,6 +392,10 @@ func (r *Run) Fanout(items []string, opts FanoutOpts, work func(item string, sub
 	if opts.ItemTimeout == 0 {
 		// a worker that never answers is a machinery error, not a reason to hang the check
 		opts.ItemTimeout = 10 * time.Minute
+		if Thorough() {
+			// thorough budgets are up to 18 minutes per check and one item may use all of it
+			opts.ItemTimeout = 30 * time.Minute
+		}
 	}
 	n := opts.Workers
 	if n <= 0 {
